@@ -1,6 +1,6 @@
 """C09 — 3-D bond-orientational order equals Steinhardt's definitions (class boo_3d of PyMatterSim/static/boo.py).
 
-Functions under contract: boo_3d.qlm_Qlm, ql_Ql, sij_ql_Ql, w_W_cap, spatial_corr, time_corr, utils.funcs.Wignerindex.
+Functions under contract: boo_3d.__init__, qlm_Qlm, ql_Ql, sij_ql_Ql, w_W_cap, spatial_corr, time_corr, utils.funcs.Wignerindex.
 Callee contracts used (not bodies): read_neighbors (C05), remove_pbc (C02), sph_harm_l (C08), conditional_gr (C13),
 time_correlation (C14).
 
@@ -64,8 +64,9 @@ TRUSTED = [
     "C(k)/C(0) with C the origin-averaged (evenly spaced frames, T >= 2) or first-origin autocorrelation Re sum_i sum_m A[n0+k,i,m] "
     "conj A[n0,i,m], time_corr[0] = 1; requires C(0) != 0; writes its table when given an output file; which of the two spacings applies "
     "is an unconstrained boolean here (both are covered)",
-    "object invariant established by boo_3d.__init__ (asserts): every frame has the particle number and the box lengths of frame 0; "
-    "smallqlm / largeQlm are the arrays returned by qlm_Qlm (arbitrary complex (T, N, 2l+1) fields in the units of the other methods)",
+    "object invariant of boo_3d (unit Init: attributes = arguments, smallqlm / largeQlm = the pair returned by qlm_Qlm; the two asserts of "
+    "__init__: every frame has the particle number and the box lengths of frame 0 — a failing assert is a raising path outside the "
+    "statement's inputs): in the units of the other methods the fields are arbitrary complex (T, N, 2l+1) arrays and BL(s, c) = BL(0, c)",
     "open() returns a handle whose only state is the number of frames consumed (pyvc/libext/C09.py); close() has no effect on the results",
     "np.arctan2, np.arccos element-wise (uninterpreted with axioms), np.linalg.norm, np.concatenate(axis=0) of equally shaped items, "
     "np.column_stack, np.ravel/reshape row-major, np.prod over a concrete axis, pandas DataFrame(2-D array, columns) / to_csv = write event, "
@@ -1491,7 +1492,7 @@ from contracts.common import callee_units as _callee_units   # noqa: E402
 UNITS = UNITS + _callee_units([('C02', None), ('C05', {'read_neighbors'}), ('C08', None), ('C13', {'conditional_gr'}), ('C14', None)], UNITS)
 
 MANIFEST = {
-    "text": "boo_3d.qlm_Qlm, ql_Ql, sij_ql_Ql, w_W_cap, spatial_corr, time_corr and utils.funcs.Wignerindex (real ASTs, re-read every run; "
+    "text": "boo_3d.__init__, qlm_Qlm, ql_Ql, sij_ql_Ql, w_W_cap, spatial_corr, time_corr and utils.funcs.Wignerindex (real ASTs, re-read every run; "
             "symbolic frame number T, particle number N, degree l >= 1 (w_W_cap: l = 2, 3, 4, 6), neighbour arrays, cells, masks, Nmax, threshold "
             "c, rdelta, dt): q_lm(n,i) returned by "
             "qlm_Qlm equals (1/cn) sum_j Y_lm(arccos(b_z/|b|), atan2(b_y,b_x)) over the minimum-image bonds of the neighbour file "
@@ -1511,7 +1512,8 @@ MANIFEST = {
             "fields, with / without csv): time_correlation is called with the trajectory, the selected field and dt, the returned frame has "
             "T rows, t[k] = (ts_k - ts_0) dt untouched, time_corr[k] = C(k)/C(0) (the factor 4 pi/(2l+1) cancels), time_corr[0] = 1, the "
             "divisor 4 pi/(2l+1) C(0)/C(0) is non-zero, csv = returned columns; the units of conditional_gr (C13) and time_correlation (C14) are "
-            "re-verified with this check; lemmas: Lagrange identity => |s_ij| <= 1 for l = 1..12, convexity identity + induction "
+            "re-verified with this check; __init__ stores its arguments before qlm_Qlm runs and sets smallqlm, largeQlm to the pair qlm_Qlm returns; "
+            "lemmas: Lagrange identity => |s_ij| <= 1 for l = 1..12, convexity identity + induction "
             "step + base => 0 <= q_l <= 1, equal weights => omega_j = 1/cn, eq. (8): gA/gr of the returned frame means = pair average pooled "
             "over the frames, eq. (9): the prefactor cancels under the normalisation at lag 0.",
     "note": "floats as reals (A1, s_ij is stored in float32); callee contracts of read_neighbors (C05), sph_harm_l (C08), remove_pbc (C02), "
